@@ -81,7 +81,9 @@ func newWorld(engine, balancer string) *world {
 	}
 	w.a, w.b = mk("A"), mk("B")
 	o, err := stack.Boot(stack.Opts{Engine: engine, Balancer: balancer, ModelDiscovery: true,
-		Endpoints: []stack.EP{{B: w.a, Priority: 200}, {B: w.b, Priority: 100}}})
+		// B's URL is configured with a trailing slash (both spellings occur in real configurations): every gauge and
+		// counter is filed under the endpoint's configured URL string
+		Endpoints: []stack.EP{{B: w.a, Priority: 200}, {B: w.b, Priority: 100, BasePath: "/"}}})
 	if err != nil {
 		res.Break("boot: %v", err)
 		return nil
@@ -240,13 +242,13 @@ func (w *world) run(ks []string, prefix []int, checkGauges bool) (*gate.Controll
 	}
 	if checkGauges {
 		c.OnStep = func(c *gate.Controller) {
-			want := map[string]int64{w.a.URL(): 0, w.b.URL(): 0}
+			want := map[string]int64{w.a.URL(): 0, w.b.URL() + "/": 0}
 			for _, g := range c.ParkedAt() {
 				switch g {
 				case "backend:A":
 					want[w.a.URL()]++
 				case "backend:B":
-					want[w.b.URL()]++
+					want[w.b.URL()+"/"]++
 				}
 			}
 			ok := stack.Eventually(time.Second, func() bool {
